@@ -74,8 +74,21 @@ let out = Buffer.create (1 lsl 20)
 let pr fmt = Printf.bprintf out fmt
 let ts_str z = Printf.sprintf "%.9f" (float_of_z z /. 1e9)
 
-let print_point (p : point) =
-  match xyz p.p_proj with
+(* ENABLE_TRANSFORM build: per-instance rigid motion (Proofs/Transform.v: roll about x, pitch about y, yaw about z, then the
+   translation), evaluated in double from the binary32 parameter values of the TF line *)
+let tfs : (int, float array) Hashtbl.t = Hashtbl.create 4
+let apply_tf i (x, y, z) =
+  match Hashtbl.find_opt tfs i with
+  | None -> (x, y, z)
+  | Some t ->
+    let (tx, ty, tz, roll, pitch, yaw) = (t.(0), t.(1), t.(2), t.(3), t.(4), t.(5)) in
+    let (x, y, z) = (x, cos roll *. y -. sin roll *. z, sin roll *. y +. cos roll *. z) in
+    let (x, y, z) = (cos pitch *. x +. sin pitch *. z, y, -. sin pitch *. x +. cos pitch *. z) in
+    let (x, y, z) = (cos yaw *. x -. sin yaw *. y, sin yaw *. x +. cos yaw *. y, z) in
+    (x +. tx, y +. ty, z +. tz)
+
+let print_point i (p : point) =
+  match (match xyz p.p_proj with None -> None | Some v -> Some (apply_tf i v)) with
   | None -> pr "p 0 nan nan nan %d %d %s\n" (int_of_z p.p_int) (int_of_z p.p_ring) (ts_str p.p_ts)
   | Some (x, y, z) -> pr "p 1 %.6f %.6f %.6f %d %d %s\n" x y z (int_of_z p.p_int) (int_of_z p.p_ring) (ts_str p.p_ts)
 
@@ -92,7 +105,7 @@ let print_sout (so : sout) =
      | OCloud c ->
        pr "cloud %d %d %d %d %d %d %s %d\n" i (int_of_z c.cl_seq) (int_of_z c.cl_buf) (int_of_z c.cl_height) (int_of_z c.cl_width)
          (bi c.cl_dense) (ts_str c.cl_ts) (List.length c.cl_points);
-       List.iter print_point c.cl_points)
+       List.iter (print_point i) c.cl_points)
   | STemp (i, None) -> pr "temp %d 0 0\n" (int_of_z i)
   | STemp (i, Some _) -> assert false
   | SDev (i, info, st) ->
@@ -105,7 +118,7 @@ let print_sout (so : sout) =
      | Some v -> pr "devstatus %d 1 %d\n" i (int_of_z v))
   | SOpen (i, buf, pts) ->
     pr "open %d %d %d\n" (int_of_z i) (int_of_z buf) (List.length pts);
-    List.iter print_point pts
+    List.iter (print_point (int_of_z i)) pts
   | SNoDrv i -> pr "nodrv %d\n" (int_of_z i)
   | SInErr (i, c) -> pr "ierr %d %d\n" (int_of_z i) (int_of_z c)
 
@@ -206,7 +219,7 @@ let () =
         | [] -> ()
         | "S" :: name ->
           pr "S %s\n" (String.concat " " name);
-          pend.cfgs <- []; pend.answers <- []; pend.inputs <- []; pend.queued <- []; w := world0; Hashtbl.reset descs; Hashtbl.reset life;
+          pend.cfgs <- []; pend.answers <- []; pend.inputs <- []; pend.queued <- []; w := world0; Hashtbl.reset descs; Hashtbl.reset life; Hashtbl.reset tfs;
           bl := { b_crc = false; b_difop_parse = false }
         | ["B"; crc; parse] -> bl := { b_crc = bool_of crc; b_difop_parse = bool_of parse }
         | ["D"; i; ty; wait; dense; mode; angle; nblk; minb; maxb; st; en; lclock; tsfirst; pktcb; tz; user; tail] ->
@@ -216,6 +229,8 @@ let () =
                     c_start_angle = zi st; c_end_angle = zi en; c_lidar_clock = bool_of lclock; c_ts_first = bool_of tsfirst;
                     c_pkt_cb = bool_of pktcb; c_tz = zi tz; c_user = zi user; c_tail = zi tail } in
           pend.cfgs <- (int_of_string i, (desc_of_code (int_of_string ty), c)) :: pend.cfgs
+        | "TF" :: i :: bits when List.length bits = 6 ->
+          Hashtbl.replace tfs (int_of_string i) (Array.of_list (List.map (fun b -> Int32.float_of_bits (Int32.of_string ("0u" ^ b))) bits))
         | "A" :: i :: toks ->
           pend.answers <- (int_of_string i, List.map (fun t -> if t = "N" then None else Some (z_of_int (int_of_string t))) toks) :: pend.answers
         | ["I"; i] ->
